@@ -184,8 +184,20 @@ def run_shard(spec, rec: Recorder):
                     port = rng.choice([389, 0, 65535, rng.randrange(65536)])
                     target = rng.choice(["dc%d.corp.example." % j, "dc%d.corp.example" % j, "DC-%d.A.B.C.example." % j, "x%d." % j])
                     recs.append((prio, weight, port, target))
-                domain = rng.choice(["corp.example", "a.b.c.d.example", None, "", "sub.corp.example."])
+                domain = rng.choice(["corp.example", "a.b.c.d.example", None, "", "sub.corp.example.", "UPPER.Corp.Example", "xn--mller-kva.example", "_under.score.example", "a" * 63 + ".example"])
                 check_case(rec, dns_, recs, domain, loop)
+            # large answer sets and unusual (but valid) targets
+            for i in range(max(20, spec["n"] // 20)):
+                k = rng.choice([6, 9, 30, 200])
+                base_p = rng.choice([0, 1, 32767, 32768, 65535])
+                recs = []
+                for j in range(k):
+                    prio = rng.choice([base_p, base_p, min(65535, base_p + 1), rng.randrange(65536)])
+                    weight = rng.choice([0, 1, 32767, 32768, 65535, rng.randrange(65536)])
+                    target = rng.choice(["DC%d.Corp.Example." % j, "dc-%d.xn--mller-kva.example." % j, "_x%d._y.example." % j, "a%d.b.c.d.e.f.g.example." % j, "dc%d.with\\.dot.example." % j])
+                    recs.append((prio, weight, rng.choice([389, 636, 3268, 0, 65535]), target))
+                check_case(rec, dns_, recs, rng.choice(["corp.example", None, "big.example"]), loop)
+                rec.count("large_answer_sets")
             rec.sample({"records": [list(r) for r in recs], "domain": domain})
         else:
             run_api(rec, dns_, loop, rng)
